@@ -1,5 +1,5 @@
 #!/usr/bin/env python3
-"""tools/seedcheck.py <PROP> <n> [--props C01,C05]  — confirm a sub-agent's seeded change and run the checks against it.
+"""tools/seedcheck.py <PROP> <n> [--props C01,C05] [--base DIR] [--offset K]  — confirm a sub-agent's seeded change and run the checks against it.
 
 1. in the scratch worktree /tmp/seed/<PROP>/wt: demo passes on HEAD; with the change the lib tests
    still pass (102) and the demo fails;
@@ -21,7 +21,10 @@ def main():
     prop = sys.argv[1]; n = sys.argv[2]
     props = [prop]
     if '--props' in sys.argv: props = sys.argv[sys.argv.index('--props') + 1].split(',')
-    base = '/tmp/seed/%s' % prop; wt = base + '/wt'; out = base + '/out'
+    base = '/tmp/seed/%s' % prop
+    if '--base' in sys.argv: base = sys.argv[sys.argv.index('--base') + 1]
+    offset = int(sys.argv[sys.argv.index('--offset') + 1]) if '--offset' in sys.argv else 0
+    wt = base + '/wt'; out = base + '/out'
     diff = '%s/change%s.diff' % (out, n); demo = '%s/seed_demo_%s.rs' % (out, n)
     tgt = {'CARGO_TARGET_DIR': base + '/target'}
     meta = dict(property=prop, n=int(n), confirmed=False)
@@ -42,29 +45,31 @@ def main():
     meta.update(demo_passes_on_head=demo_clean_pass, lib_tests_pass_with_change=lib_pass, demo_fails_with_change=demo_mut_fail)
     meta['confirmed'] = demo_clean_pass and lib_pass and demo_mut_fail
     print('confirm: demo on HEAD pass=%s, lib tests with change pass=%s (%s), demo with change fails=%s' % (demo_clean_pass, lib_pass, m.group(0) if m else o1.strip()[-200:], demo_mut_fail))
-    # run the checks against /repo with the change applied
-    st = subprocess.run('git -C /repo status --porcelain', shell=True, stdout=subprocess.PIPE, text=True).stdout.strip()
-    if st:
-        print('/repo is not clean, refusing'); sys.exit(2)
+    # run the checks on the scratch work tree (at /repo's HEAD) with the change applied; /repo is not touched
     results = {}
+    head = subprocess.run('git -C /repo rev-parse HEAD', shell=True, stdout=subprocess.PIPE, text=True).stdout.strip()
+    sh('git checkout -q --detach %s' % head, cwd=wt)
     try:
-        c, o = sh('git -C /repo apply %s' % diff)
-        if c != 0: print('cannot apply to /repo', o)
+        c, o = sh('git apply %s' % diff, cwd=wt)
+        if c != 0: print('cannot apply to the work tree at HEAD', o)
         for p in props:
-            c, o = sh('./run check %s --tier quick' % p, cwd=V, env={'VERIF_EVIDENCE_DIR': '/tmp/seed/evidence', 'VERIF_OUT_DIR': '/tmp/seed/outreplay'})
+            c, o = sh('./run check %s --tier quick' % p, cwd=V, env={'VERIF_REPO': wt, 'VERIF_CACHE': base + '/cache', 'VERIF_EVIDENCE_DIR': base + '/cache/evidence', 'VERIF_OUT_DIR': base + '/cache/outreplay'})
             rules = re.findall(r'^\s+rule=(\S+) fn=(.*?) site=(\S*) :: (.*)$', o, re.M)
             results[p] = dict(exit=c, rules=sorted({r[0] for r in rules}), first=(rules[0][3][:200] if rules else ''))
             print('  check %s exit=%d %s' % (p, c, sorted({r[0] for r in rules})[:6]))
+            if c == 2: print(o[-800:])
     finally:
-        sh('git -C /repo checkout -- .')
+        sh('git checkout -- .', cwd=wt)
     meta['checks'] = results
     meta['detected'] = any(v['exit'] == 1 for v in results.values())
-    d = os.path.join(V, 'seeded', '%s-%s' % (prop, n)); os.makedirs(d, exist_ok=True)
+    d = os.path.join(V, 'seeded', '%s-%d' % (prop, int(n) + offset)); os.makedirs(d, exist_ok=True)
+    meta['n'] = int(n) + offset
+    if offset: meta['round'] = 2
     shutil.copy(diff, d + '/patch.diff'); shutil.copy(demo, d + '/seed_demo.rs')
     for rep in (out + '/REPORT.md', out + '/REPORT.txt'):
         if os.path.exists(rep): shutil.copy(rep, d + '/AGENT_REPORT.md')
     meta['ran'] = ['cargo test -p ommx --offline --test seed_demo_%s (HEAD: pass, with change: fail)' % n, 'cargo test -p ommx --lib --offline (with change: 102 pass)',
-                   'git -C /repo apply patch.diff; ./run check %s --tier quick; git -C /repo checkout -- .' % ','.join(props)]
+                   'patch applied to a scratch work tree at /repo HEAD; VERIF_REPO=<work tree> ./run check %s --tier quick' % ','.join(props)]
     json.dump(meta, open(d + '/meta.json', 'w'), indent=1)
     print('detected' if meta['detected'] else 'MISSED', '->', d)
 
